@@ -195,6 +195,14 @@ func visitValue(v reflect.Value, fn func(node any) bool, depth int) {
 				return
 			}
 		}
+		// Where, Conjunction, Disjunction ... embed an unexported expression list
+		if v.CanInterface() {
+			if list, ok := v.Interface().(interface{ GetAll() []cypher.Expression }); ok {
+				for _, e := range list.GetAll() {
+					visitValue(reflect.ValueOf(e), fn, depth+1)
+				}
+			}
+		}
 		visitValue(v.Elem(), fn, depth+1)
 	case reflect.Struct:
 		for i := 0; i < v.NumField(); i++ {
@@ -349,4 +357,502 @@ func mixedItemReadsVariableOutsideAggregate(e cypher.Expression) bool {
 // Not narrower: whether a group's input is empty or all null depends on the graph.
 func SumAggregate(q *Shape) bool {
 	return callsFunction(q.Model, "sum")
+}
+
+// ---------------------------------------------------------------------------------------------------
+// more root causes (C01 triage)
+
+func init() {
+	Findings = append(Findings,
+		Finding{"with-order-skip-limit-dropped", WithOrderSkipLimit},
+		Finding{"restated-bound-node-cross-join", RestatedBoundNodeOnlyPattern},
+		Finding{"undirected-step-drops-self-loops", UndirectedStepOnSelfLoopGraph},
+		Finding{"undirected-step-same-variable", UndirectedStepSameVariable},
+		Finding{"rel-uniqueness-across-pattern-parts", RelationshipsInSeveralPatternParts},
+		Finding{"optional-match-multi-frame", OptionalMatchSeveralFrames},
+		Finding{"optional-match-duplicate-origin-rows", OptionalMatchAfterDuplicableRows},
+		Finding{"expansion-into-bound-node-same-part", ExpansionClosingOnEarlierNodeOfPart},
+		Finding{"collect-property-as-text", CollectOfNonStringProperty},
+	)
+}
+
+// WithOrderSkipLimit: a WITH that carries ORDER BY, SKIP or LIMIT. buildMultiPartQuery (translate/query.go) copies
+// only the inline projection into the nested CTE; the part's Skip / Limit / SortItems are never attached.
+func WithOrderSkipLimit(q *Shape) bool {
+	for _, p := range q.Parts {
+		if !p.IsReturn && p.Projection != nil && (p.Projection.Order != nil || p.Projection.Skip != nil || p.Projection.Limit != nil) {
+			return true
+		}
+	}
+	return false
+}
+
+// boundBefore walks the query in order and calls visit for every pattern part together with the set of variables
+// bound before that part starts (earlier clauses, earlier parts of the same MATCH; WITH narrows the scope).
+func (s *Shape) walkParts(visit func(m *MatchShape, partIndex int, ps *PatternShape, bound map[string]bool)) {
+	bound := map[string]bool{}
+	for _, p := range s.Parts {
+		mi, ui := 0, 0
+		for _, rc := range p.Clauses {
+			if rc == nil {
+				continue
+			}
+			if rc.Match != nil {
+				m := p.Matches[mi]
+				mi++
+				for i, ps := range m.Parts {
+					visit(m, i, ps, bound)
+					for _, n := range ps.Nodes {
+						if v := varName(n.Variable); v != "" {
+							bound[v] = true
+						}
+					}
+					for _, r := range ps.Rels {
+						if v := varName(r.Variable); v != "" {
+							bound[v] = true
+						}
+					}
+					if ps.Part != nil {
+						if v := varName(ps.Part.Variable); v != "" {
+							bound[v] = true
+						}
+					}
+				}
+			}
+			if rc.Unwind != nil {
+				ui++
+				if v := varName(rc.Unwind.Variable); v != "" {
+					bound[v] = true
+				}
+			}
+		}
+		if !p.IsReturn && p.Projection != nil {
+			next := map[string]bool{}
+			for _, it := range p.Projection.Items {
+				expr, alias := ItemExpr(it)
+				if alias != "" {
+					next[alias] = true
+				} else if v, ok := expr.(*cypher.Variable); ok && v != nil {
+					if v.Symbol == "*" {
+						for k := range bound {
+							next[k] = true
+						}
+					} else {
+						next[v.Symbol] = true
+					}
+				}
+			}
+			bound = next
+		}
+	}
+}
+
+// RestatedBoundNodeOnlyPattern: a node-only pattern part whose variable is already bound - MATCH (n), (n) or
+// MATCH (n) ... MATCH (n:Kind). buildNodePatternPart (translate/node.go) joins the node table again without
+// tying it to the bound node, so every row is multiplied by the number of nodes.
+func RestatedBoundNodeOnlyPattern(q *Shape) bool {
+	found := false
+	q.walkParts(func(m *MatchShape, i int, ps *PatternShape, bound map[string]bool) {
+		if len(ps.Rels) == 0 && len(ps.Nodes) == 1 {
+			if v := varName(ps.Nodes[0].Variable); v != "" && bound[v] {
+				found = true
+			}
+		}
+	})
+	return found
+}
+
+func graphHasSelfLoop(c Case) bool {
+	for _, e := range c.Graph.Edges {
+		if e.Start == e.End {
+			return true
+		}
+	}
+	return false
+}
+
+// everyRelPattern calls fn for every relationship pattern of the query, pattern predicates included, together
+// with its two neighbouring node patterns.
+func (s *Shape) everyRelPattern(fn func(left *cypher.NodePattern, rel *cypher.RelationshipPattern, right *cypher.NodePattern)) {
+	walkElements := func(els []*cypher.PatternElement) {
+		var lastNode *cypher.NodePattern
+		var pendingRel *cypher.RelationshipPattern
+		for _, el := range els {
+			if el == nil {
+				continue
+			}
+			if n, ok := el.AsNodePattern(); ok {
+				if pendingRel != nil {
+					fn(lastNode, pendingRel, n)
+					pendingRel = nil
+				}
+				lastNode = n
+			} else if r, ok := el.AsRelationshipPattern(); ok {
+				pendingRel = r
+			}
+		}
+	}
+	Visit(s.Model, func(n any) bool {
+		switch t := n.(type) {
+		case *cypher.PatternPart:
+			walkElements(t.PatternElements)
+		case *cypher.PatternPredicate:
+			walkElements(t.PatternElements)
+		}
+		return true
+	})
+}
+
+// UndirectedStepOnSelfLoopGraph: an undirected, fixed-length relationship step between two different variables
+// (or anonymous nodes), on a graph that has a self loop. The undirected step joins both endpoints with
+// "id = start_id or id = end_id" and keeps the two apart with "left.id <> right.id"
+// (translate/traversal_directionless.go), which also removes the match of a self loop, where both ends are
+// legitimately the same node. Uses the graph: without a self loop the guard is harmless.
+func UndirectedStepOnSelfLoopGraph(q *Shape) bool {
+	if !graphHasSelfLoop(q.Case) {
+		return false
+	}
+	found := false
+	q.everyRelPattern(func(l *cypher.NodePattern, r *cypher.RelationshipPattern, rt *cypher.NodePattern) {
+		if isUndirected(r) && !IsVarLength(r) && !sameVariable(l, rt) {
+			found = true
+		}
+	})
+	return found
+}
+
+func sameVariable(a, b *cypher.NodePattern) bool {
+	if a == nil || b == nil {
+		return false
+	}
+	va, vb := varName(a.Variable), varName(b.Variable)
+	return va != "" && va == vb
+}
+
+// UndirectedStepSameVariable: (n)-[r]-(n). Both endpoint conditions are "n.id = start_id or n.id = end_id", which
+// every edge incident to n satisfies; nothing requires start_id = end_id
+// (translate/traversal_directionless.go buildSelfReferentialDirectionlessTraversalRoot and the bound-node step).
+func UndirectedStepSameVariable(q *Shape) bool {
+	found := false
+	q.everyRelPattern(func(l *cypher.NodePattern, r *cypher.RelationshipPattern, rt *cypher.NodePattern) {
+		if isUndirected(r) && sameVariable(l, rt) {
+			found = true
+		}
+	})
+	return found
+}
+
+// RelationshipsInSeveralPatternParts: one MATCH with two or more comma-separated pattern parts that each contain a
+// relationship. previousRelationshipUniquenessConstraint (translate/traversal.go) compares a step's edge only
+// with the earlier steps of its own pattern part, so one relationship can be bound in two parts.
+// Not narrower: any graph with an edge that fits both parts shows it.
+func RelationshipsInSeveralPatternParts(q *Shape) bool {
+	for _, m := range q.AllMatches() {
+		n := 0
+		for _, ps := range m.Parts {
+			if len(ps.Rels) > 0 {
+				n++
+			}
+		}
+		if n >= 2 {
+			return true
+		}
+	}
+	return false
+}
+
+// OptionalMatchSeveralFrames: a (non-leading) OPTIONAL MATCH whose pattern is translated into more than one
+// frame - two or more relationship steps in a part, or two or more pattern parts. buildOptionalMatchAggregationStep
+// (translate/match.go) left-joins aggregationFrame.Previous (the LAST frame of the pattern) to the frame before it,
+// so only the last step is optional.
+func OptionalMatchSeveralFrames(q *Shape) bool {
+	for _, m := range q.AllMatches() {
+		if m.Match == nil || !m.Match.Optional || m.Index == 0 {
+			continue
+		}
+		frames := 0
+		for _, ps := range m.Parts {
+			if len(ps.Rels) == 0 {
+				frames++
+			} else {
+				frames += len(ps.Rels)
+			}
+		}
+		if frames >= 2 || hasPatternPredicate(m.Match.Where) {
+			return true
+		}
+	}
+	return false
+}
+
+func hasPatternPredicate(e any) bool {
+	found := false
+	Visit(e, func(n any) bool {
+		if _, ok := n.(*cypher.PatternPredicate); ok {
+			found = true
+		}
+		return !found
+	})
+	return found
+}
+
+// OptionalMatchAfterDuplicableRows: a (non-leading) OPTIONAL MATCH whose incoming rows can repeat: an earlier
+// pattern with an anonymous node or relationship or a variable-length relationship (their bindings are not
+// exported by the frame), an UNWIND, or a WITH. The optional frame is joined back to the origin frame on equality
+// of the origin's exported columns (translate/match.go buildOptionalMatchAggregationStep); equal origin rows each
+// pick up the other's matches, so n equal rows with k matches give n*n*k rows instead of n*k.
+// Not narrower: whether two incoming rows are equal depends on the graph.
+func OptionalMatchAfterDuplicableRows(q *Shape) bool {
+	duplicable := false
+	found := false
+	for _, p := range q.Parts {
+		mi := 0
+		for _, rc := range p.Clauses {
+			if rc == nil {
+				continue
+			}
+			if rc.Unwind != nil {
+				duplicable = true
+			}
+			if rc.Match != nil {
+				m := p.Matches[mi]
+				mi++
+				if rc.Match.Optional && m.Index > 0 && duplicable {
+					found = true
+				}
+				for _, ps := range m.Parts {
+					for _, n := range ps.Nodes {
+						if varName(n.Variable) == "" {
+							duplicable = true
+						}
+					}
+					for _, r := range ps.Rels {
+						if varName(r.Variable) == "" || IsVarLength(r) {
+							duplicable = true
+						}
+					}
+				}
+			}
+		}
+		if !p.IsReturn {
+			duplicable = true
+		}
+	}
+	return found
+}
+
+// ExpansionClosingOnEarlierNodeOfPart: a variable-length step that is not the first step of its pattern part and
+// whose right node restates a variable bound earlier in the same part, e.g. (a)-[:R]->(b)-[*]->(a). The
+// expansion step re-selects the terminal node by next_id and never compares it with the bound node
+// (translate/expansion.go buildExpansionPatternStep).
+func ExpansionClosingOnEarlierNodeOfPart(q *Shape) bool {
+	for _, m := range q.AllMatches() {
+		for _, ps := range m.Parts {
+			for i, r := range ps.Rels {
+				if i == 0 || !IsVarLength(r) || i+1 >= len(ps.Nodes) {
+					continue
+				}
+				v := varName(ps.Nodes[i+1].Variable)
+				if v == "" {
+					continue
+				}
+				for _, earlier := range ps.Nodes[:i+1] {
+					if varName(earlier.Variable) == v {
+						return true
+					}
+				}
+			}
+		}
+	}
+	return false
+}
+
+// CollectOfNonStringProperty: collect(x.key) where some entity of the graph stores a non-string value under key.
+// Property lookups are untyped; prepareCollectExpression (translate) aggregates the ->> text form, so numbers and
+// booleans come back as strings. Uses the graph: on all-string values text and value coincide.
+func CollectOfNonStringProperty(q *Shape) bool {
+	keys := map[string]bool{}
+	Visit(q.Model, func(n any) bool {
+		if f, ok := n.(*cypher.FunctionInvocation); ok && f != nil && strings.EqualFold(f.Name, "collect") && len(f.Arguments) == 1 {
+			if pl, ok := f.Arguments[0].(*cypher.PropertyLookup); ok && pl != nil {
+				keys[pl.Symbol] = true
+			}
+		}
+		return true
+	})
+	if len(keys) == 0 {
+		return false
+	}
+	nonString := func(props map[string]any) bool {
+		for k := range keys {
+			if v, ok := props[k]; ok {
+				if _, isString := v.(string); !isString && v != nil {
+					return true
+				}
+			}
+		}
+		return false
+	}
+	for _, n := range q.Case.Graph.Nodes {
+		if nonString(n.Props) {
+			return true
+		}
+	}
+	for _, e := range q.Case.Graph.Edges {
+		if nonString(e.Props) {
+			return true
+		}
+	}
+	return false
+}
+
+func init() {
+	Findings = append(Findings,
+		Finding{"undirected-continuation-step", UndirectedContinuationStep},
+		Finding{"expansion-first-hop-self-loop", ExpansionOnSelfLoopGraph},
+		Finding{"rel-uniqueness-between-expansions", TwoExpansionsInOnePart},
+	)
+}
+
+// UndirectedContinuationStep: an undirected fixed-length step that is not the first step of its pattern part,
+// e.g. (a)-[:R]->(b)-[r]-(c). buildTraversalPatternStep (translate/traversal.go) joins the edge on "b is either
+// endpoint" and the new node on "c is either endpoint" with nothing that makes c the OTHER endpoint, so every
+// incident edge also yields c = b.
+func UndirectedContinuationStep(q *Shape) bool {
+	found := false
+	check := func(ps *PatternShape) {
+		for i, r := range ps.Rels {
+			if i > 0 && isUndirected(r) && !IsVarLength(r) {
+				found = true
+			}
+		}
+	}
+	for _, m := range q.AllMatches() {
+		for _, ps := range m.Parts {
+			check(ps)
+		}
+	}
+	Visit(q.Model, func(n any) bool {
+		if pp, ok := n.(*cypher.PatternPredicate); ok && pp != nil {
+			check(patternShape(&cypher.PatternPart{PatternElements: pp.PatternElements}))
+		}
+		return true
+	})
+	return found
+}
+
+// ExpansionOnSelfLoopGraph: a variable-length relationship on a graph with a self loop. The recursive CTE marks
+// a first hop over a self loop as is_cycle and never extends it ("... and not sN.is_cycle", translate/expansion.go
+// expansionConstraints), although the trail [loop, next edge] is a legitimate match; relationship uniqueness is
+// already enforced through the path array. Uses the graph: is_cycle is only ever true for a self-loop first hop.
+func ExpansionOnSelfLoopGraph(q *Shape) bool {
+	if !graphHasSelfLoop(q.Case) {
+		return false
+	}
+	found := false
+	q.everyRelPattern(func(l *cypher.NodePattern, r *cypher.RelationshipPattern, rt *cypher.NodePattern) {
+		if IsVarLength(r) {
+			found = true
+		}
+	})
+	return found
+}
+
+// TwoExpansionsInOnePart: a pattern part with two variable-length steps. expansionPreviousRelationshipUniquenessConstraint
+// (translate/traversal.go) compares an expansion's path with the preceding FIXED steps only and skips preceding
+// expansions, so both expansions may traverse the same relationship.
+func TwoExpansionsInOnePart(q *Shape) bool {
+	for _, m := range q.AllMatches() {
+		for _, ps := range m.Parts {
+			n := 0
+			for _, r := range ps.Rels {
+				if IsVarLength(r) {
+					n++
+				}
+			}
+			if n >= 2 {
+				return true
+			}
+		}
+	}
+	return false
+}
+
+func init() {
+	Findings = append(Findings,
+		Finding{"with-constants-only-loses-rows", WithOnlyConstants},
+		Finding{"with-where-moves-into-optional-match", WithWhereBeforeOptionalMatch},
+	)
+}
+
+// WithOnlyConstants: a WITH none of whose items reads a variable (WITH 1 AS x, WITH 'a' AS k, count(*) AS c is not
+// meant: aggregates read their input). buildInlineProjection (translate/projection.go) gives the nested select a
+// FROM only when some item references a binding, so the WITH yields exactly one row whatever came in.
+func WithOnlyConstants(q *Shape) bool {
+	for i, p := range q.Parts {
+		if p.IsReturn || p.Projection == nil || len(p.Projection.Items) == 0 {
+			continue
+		}
+		if i == 0 && len(p.Clauses) == 0 {
+			continue // a leading WITH has one incoming row anyway
+		}
+		constant := true
+		for _, it := range p.Projection.Items {
+			expr, _ := ItemExpr(it)
+			if ReferencesVariable(expr) || ContainsAggregate(expr) {
+				constant = false
+			}
+		}
+		if constant {
+			return true
+		}
+	}
+	return false
+}
+
+// WithWhereBeforeOptionalMatch: WITH ... WHERE directly followed by OPTIONAL MATCH. A WHERE conjunct that needs a
+// binding the WITH introduces (an alias) - and, once WITH carries SKIP/LIMIT, every conjunct - is left with the
+// constraint tracker and consumed by the next pattern; when that pattern belongs to an OPTIONAL MATCH the filter
+// becomes a condition of the optional match, so rows failing the WHERE survive with nulls.
+// Not narrower: which conjuncts are deferred is decided by the tracker's dependency sets.
+func WithWhereBeforeOptionalMatch(q *Shape) bool {
+	for i, p := range q.Parts {
+		if p.IsReturn || p.Where == nil || i+1 >= len(q.Parts) {
+			continue
+		}
+		next := q.Parts[i+1]
+		for _, rc := range next.Clauses {
+			if rc == nil {
+				continue
+			}
+			if rc.Match != nil {
+				if rc.Match.Optional {
+					return true
+				}
+				break
+			}
+			if rc.Unwind != nil {
+				break
+			}
+		}
+	}
+	return false
+}
+
+func init() {
+	Findings = append(Findings,
+		Finding{"optional-match-labels-predicate-after-join", OptionalMatchWhereLabels},
+	)
+}
+
+// OptionalMatchWhereLabels: a (non-leading) OPTIONAL MATCH whose WHERE calls labels(). The labels() translation is a
+// sub-select over the kind table; the constraint is not consumed by any frame of the optional pattern and ends up in
+// the WHERE of the final projection, i.e. after the outer join, where it removes the null-extended rows.
+func OptionalMatchWhereLabels(q *Shape) bool {
+	for _, m := range q.AllMatches() {
+		if m.Match != nil && m.Match.Optional && m.Index > 0 && m.Match.Where != nil && callsFunction(m.Match.Where, "labels") {
+			return true
+		}
+	}
+	return false
 }
